@@ -336,6 +336,7 @@ var (
 	escapeRe  = regexp.MustCompile("\\\\[!-/:-@\\[-`{-~]")
 	refDefRe  = regexp.MustCompile(`(?m)^ {0,3}\[[^\]\n]+\]: `)
 	literalRe = regexp.MustCompile(`[<&]`)
+	soupTagRe = regexp.MustCompile(`(?i)<(/?)(pre|textarea|script|style|title|xmp|listing|plaintext|a|b|i|u|em|strong|code|s|small|big|font|tt|nobr|strike)\b`)
 )
 
 func analyse(src []byte) facts {
@@ -386,8 +387,10 @@ func analyse(src []byte) facts {
 		}
 		return b
 	}
-	// raw HTML that opens a white-space-exact element (pre, textarea, script, style) without closing
-	// it in the same block: the templates' own white space between blocks would land inside it
+	// raw HTML that opens a white-space-exact element (pre, textarea, script, style) or one of the HTML
+	// parser's "formatting elements" (a, b, i, ...) without closing it in the same block: the
+	// templates' own white space between blocks would land inside it / decides where the parser
+	// re-opens it
 	exactBalance := map[ast.Node]map[string]int{}
 	noteRaw := func(container ast.Node, raw []byte) {
 		m := exactBalance[container]
@@ -395,9 +398,12 @@ func analyse(src []byte) facts {
 			m = map[string]int{}
 			exactBalance[container] = m
 		}
-		low := bytes.ToLower(raw)
-		for _, name := range []string{"pre", "textarea", "script", "style", "title", "xmp", "listing", "plaintext"} {
-			m[name] += bytes.Count(low, []byte("<"+name)) - bytes.Count(low, []byte("</"+name))
+		for _, mm := range soupTagRe.FindAllSubmatch(raw, -1) {
+			d := 1
+			if len(mm[1]) > 0 {
+				d = -1
+			}
+			m[strings.ToLower(string(mm[2]))] += d
 		}
 	}
 	hasAncestor := func(n ast.Node, k ast.NodeKind) bool {
@@ -609,7 +615,7 @@ func analyse(src []byte) facts {
 		for _, d := range m {
 			if d != 0 {
 				f.tagSoup = true
-				set("raw-html-unbalanced-exact-element")
+				set("raw-html-unbalanced-element")
 			}
 		}
 	}
